@@ -1,5 +1,5 @@
 \* simulation (thorough): random forLoops with up to 3 outer and 3 inner iterations
-SPECIFICATION Spec
+SPECIFICATION SimSpec
 CONSTANTS
   Mode = "loop"
   Ops <- OpsRange
@@ -19,4 +19,4 @@ CONSTANTS
   MaxAbs = 1000
   NB = 4
   MaxHist = 1
-CONSTRAINT Emit
+CHECK_DEADLOCK FALSE
